@@ -53,6 +53,9 @@ class ApiInterp:
         self.calls: list = []          # (scope, ident, slot, arg) in order
         self.subs: dict = {}           # (scope, ident, slot) -> callable
         self.raising: set = set()
+        self.acting: set = set()
+        self.acted = 0
+        self.act_errors: list = []
         self.frames = 0
         self.nt: set = set()
         self.entity_frames: dict = {}
@@ -76,6 +79,13 @@ class ApiInterp:
 
             async def cb(arg, _key=key):
                 interp.calls.append((_key, arg))
+                if _key in interp.acting:
+                    # a subscriber that reacts by using the API from inside the notification (re-entrancy)
+                    interp.acted += 1
+                    try:
+                        await interp.at.check_for_updates()
+                    except Exception as exc:  # noqa: BLE001 - reported by do()
+                        interp.act_errors.append(repr(exc))
                 if _key in interp.raising:
                     raise RuntimeError(f"subscriber {_key} fails")
             # the API accepts any callable returning an awaitable: plain coroutine functions, partials, callable
@@ -134,6 +144,8 @@ class ApiInterp:
     def do(self, op):
         self.ops.append(op)
         n_calls = len(self.calls)
+        acted0 = self.acted
+        vreq0 = sum(1 for r in self.rig.console.requests if r[2] == "version_req")
         conn_before = len(self.rig.net.conns)
         exp_before = self.exposed()
         desc_before = dict(self.desc)
@@ -144,6 +156,14 @@ class ApiInterp:
         self.check_model(f"after {op[0]} #{len(self.ops) - 1}")
         if bounds is not None:
             self.check_calls(op, n_calls, bounds, exp_before, desc_before)
+        if self.act_errors:
+            self.bad("reentrant-call-raised", f"{op[0]}: an API call made from inside a subscriber raised {self.act_errors[0]}")
+        if self.acted != acted0:
+            self.nt.add("reentrant-subscriber")
+            vreq = sum(1 for r in self.rig.console.requests if r[2] == "version_req") - vreq0
+            if vreq != self.acted - acted0:
+                self.bad("reentrant-call-lost", f"{op[0]}: subscribers made {self.acted - acted0} API call(s) from inside their "
+                                                f"notification but the console received {vreq} request(s)")
 
     def op_init(self, *a):
         return None
@@ -231,6 +251,7 @@ class ApiInterp:
         c = self.rig.console
         changed = ver != self.version
         self.version = dict(ver)
+        c.w.current_version = dict(ver)   # what the console answers to later version requests
         self._send(c.w.version(ver))
         return {"kind": "version", "changed": changed}
 
@@ -256,7 +277,7 @@ class ApiInterp:
         self._send(f)
         return {"kind": "none"}
 
-    def op_subscribe(self, scope, ident, slot, twice=False, raising=False):
+    def op_subscribe(self, scope, ident, slot, twice=False, raising=False, acting=False):
         # scopes "both_ac" / "both_acstate": ONE callable registered through AirConditioner.subscribe and / or
         # AirConditioner.subscribe_ac_state of the same unit (key ("both", ident, slot))
         ckey = ("both", ident, slot) if scope.startswith("both_") else (scope, ident, slot)
@@ -264,6 +285,8 @@ class ApiInterp:
         if raising:
             self.raising.add(ckey)
             self.nt.add("raising-subscriber")
+        if acting:
+            self.acting.add(ckey)
         obj, sub, _unsub = self._target(scope, ident)
         if obj is None:
             return None
